@@ -282,6 +282,26 @@ def _tiling(ctx, p, evs, sel, claim_call, h):
     ctx.ob("R04.tiling", "candidates are %d-formatted ints", okf, inner,
            "" if okf else "candidates are formatted as %s" % (
                show(fmts[0]["elem"])[:60] if fmts else "nothing"))
+    # a size is passed over only when it has no free candidate
+    from ..e3 import pc_truth as _pct
+    okskip = True
+    why = ""
+    for alt in outer["alts"]:
+        if alt["out"] == "return":
+            continue
+        conds = _pct(alt["pc"])
+        empties = [tt for tt, v in conds.items()
+                   if v is False and strip_wrappers(tt)[0] == "coll"]
+        others = [tt for tt, v in conds.items()
+                  if not (strip_wrappers(tt)[0] == "coll") and
+                  not (tt[0] == "cmp" and tt[1] == "in")]
+        if not empties or others:
+            okskip = False
+            why = "a digit length can be skipped for another reason than 'no free " \
+                "candidate of that length' (%s)" % (
+                    show(others[0])[:70] if others else "no emptiness test")
+    ctx.ob("R04.tiling", "a size is skipped only when it has no free candidate", okskip,
+           outer, why)
     # first non-empty size returns
     ret_alts = [a for a in outer["alts"] if a["out"] == "return"]
     okr = bool(ret_alts)
